@@ -157,7 +157,8 @@ func ruleApplyWait() *Rule {
 	return &Rule{
 		ID: id,
 		Text: "In applyLoop every Cond.Wait happens only with lastApplied ≥ commitIndex established in the same critical section (or after the node was seen shut down): " +
-			"the loop never goes to sleep on an edge-triggered signal while committed entries are waiting to be applied.",
+			"the loop never goes to sleep on an edge-triggered signal while committed entries are waiting to be applied; " +
+			"(WAKE) and never after advancing lastApplied without a Broadcast on applyCond since: the InstallSnapshot handler waits on that condition for lastApplied to reach the snapshot's last index.",
 		Floor: 1,
 		Run: func(p *Program) []Obligation {
 			root := p.Func("(*Raft).applyLoop")
@@ -165,7 +166,12 @@ func ruleApplyWait() *Rule {
 				return missing(id, "(*Raft).applyLoop")
 			}
 			stateAtom := p.StateAtom()
-			sp := NewSpace(CmpAtom("lastApplied?commitIndex", "r.lastApplied", "r.commitIndex"), stateAtom)
+			// (WAKE) other code waits on the same condition for lastApplied to reach an index (the InstallSnapshot handler,
+			// when the log already holds the snapshot's last entry); the commit-index signal wakes it BEFORE the entries are
+			// applied, so the apply loop itself must signal after it has advanced lastApplied and before it sleeps again
+			sp := NewSpace(CmpAtom("lastApplied?commitIndex", "r.lastApplied", "r.commitIndex"), stateAtom, GhostAtom("appliedSinceSignal", "no", "yes"))
+			lastApplied := p.Field("Raft.lastApplied")
+			applyCond := p.Field("Raft.applyCond")
 			a := NewAnalysis(p, sp)
 			a.Hook = func(a *Analysis, f *Frame, in ssa.Instruction, st State) State {
 				if op, _ := isMutexOp(callCommonOf(in)); op == "Cond.Wait" && f.Parent == nil {
@@ -174,11 +180,26 @@ func ruleApplyWait() *Rule {
 				}
 				return st
 			}
-			a.Run(root, nil)
+			a.Post = func(a *Analysis, f *Frame, in ssa.Instruction, st State) State {
+				if s, fld := storeField(in); s != nil && fld == lastApplied {
+					return sp.Assign(st, 2, 1)
+				}
+				if c, ok := in.(*ssa.Call); ok {
+					if callee := c.Common().StaticCallee(); callee != nil && callee.Name() == "Broadcast" && len(c.Common().Args) == 1 {
+						if u, ok := c.Common().Args[0].(*ssa.UnOp); ok {
+							if fa, ok := u.X.(*ssa.FieldAddr); ok && fieldOf(fa.X.Type(), fa.Field) == applyCond {
+								return sp.Assign(st, 2, 0)
+							}
+						}
+					}
+				}
+				return st
+			}
+			a.RunFrame(NewRootFrame(root), sp.Assign(sp.Top(), 2, 0))
 			sd := enumIdx(stateAtom, "Shutdown")
 			out := evalObs(a, id, a.SortedObs(), func(_ *Observation, pt int) bool {
-				return sp.Val(pt, 0) != LT || sp.Val(pt, 1) == sd
-			}, []int{0}, "the apply loop sleeps only when nothing committed is left to apply")
+				return (sp.Val(pt, 0) != LT || sp.Val(pt, 1) == sd) && sp.Val(pt, 2) == 0
+			}, []int{0, 2}, "the apply loop sleeps only when nothing committed is left to apply, and after it has signalled what it applied")
 			if len(out) == 0 {
 				return []Obligation{{Rule: id, Construct: "Cond.Wait in (*Raft).applyLoop", Verdict: AnchorLost, Detail: "no wait found"}}
 			}
